@@ -40,6 +40,12 @@ Search only (no model: the extracted model counts bytes in unary, and the librar
   through laspy.LasReader(stream, ..) instead of laspy.open, through laspy.open(source, "r", ..), and with the counts of read_points /
   chunk_iterator given as numpy integers (int64, intp) and read_evlrs as a numpy bool; the kind of every failure starts with the name
   of the variant ("numpy integer arguments (int64): ...").
+* SOURCES WRITTEN IN PYTHON - the stream protocol does not say WHAT buffer readinto is handed: a readinto written in Python (a wrapper
+  around a socket / an HTTP body / another stream) fills it by slice assignment of bytes, through a memoryview (cast to bytes or not),
+  piece by piece, element by element, and returns the count; its read() may return a bytearray. All of these work on what io's own
+  classes hand over (bytearray / memoryview of bytes). On every file and size-boundary data set such doubles (with readinto: seekable,
+  not seekable, bare; read() only: the three others) are read whole, by chunks / read_points and by laspy.read; same oracle as every
+  source; the kind of every failure names the spelling ("... whose readinto is written in Python (b[:n] = data) ...").
 Both passes:
 * KNOWN RECORD TYPES IN THE OTHER LIST — in every run files (class "relocated") in which a record of a type laspy has a class for sits
   where it is not usually found: the Extra Bytes record (LASF_Spec / 4) that describes the extra bytes of the points stored as an
@@ -92,6 +98,9 @@ ASSUMPTIONS = [
     "every byte string",
     "the point format: the model's format_of is (format id, record size, descriptors of the first Extra Bytes record among the VLRs); how "
     "laspy turns the descriptors into dimensions is laspy's own code (expected_format applies it to what the model read)",
+    "sources whose read / readinto are written in Python (what they do with the buffer they are handed) are run by the failing-input "
+    "search only; the model's source is a byte string and a position, and the translator checks the shape of the buffer handed to "
+    "readinto (a bytearray of n * size bytes) when it regenerates point_readers",
     "what is read can be used alike: judged by the failing-input search only (the model's records are byte strings), relative to the same "
     "run by path - a record that is read-only (or not editable in some way) through EVERY access path is not a difference between access "
     "paths; the memory map is not part of that comparison (its edits are the memory-map obligations)",
@@ -219,6 +228,89 @@ class ShortDouble(Double):
         if len(mv) == 0:
             return 0
         return self._b.readinto(mv[:self._cap(len(mv))])
+
+
+# how a readinto WRITTEN IN PYTHON puts the bytes into the buffer it is handed (a wrapper around a socket / an HTTP body / another
+# stream: `data = inner.read(len(b))`, then one of these, then `return n`). Each works on the bytearray / memoryview that io's own
+# classes hand to readinto; "index" is only run on small data sets
+PY_SPELLINGS = {"slice": "b[:n] = data", "whole": "b[:] = data (b[:n] = data at the end)", "mv": "memoryview(b)[:n] = data",
+                "mvcast": 'memoryview(b).cast("B")[:n] = data', "pieces": "b[p:p + len(piece)] = piece, in a loop over pieces of 4096 bytes",
+                "index": "for i, x in enumerate(data): b[i] = x", "frombuf": "b[:n] = bytearray(data)"}
+PY_FAST = [k for k in PY_SPELLINGS if k != "index"]
+PY_READS = {"bytes": bytes, "bytearray": bytearray}       # what read(n) of such a wrapper returns
+PY_BASES = ["double_nonseekable_readinto", "double_full", "double_bare_readinto"]        # the doubles that have readinto
+PY_READ_BASES = ["double_read_only", "double_no_readinto", "double_bare"]               # read() only
+
+
+class PyDouble(Double):
+    """the same double whose readinto is written in Python, the usual way: it asks an inner stream for len(b) bytes, stores them
+    in the buffer by `spelling`, returns how many there were; read(n) returns bytes or a bytearray. Logs like Double."""
+
+    def __init__(self, raw, seekable, readinto, has_seekable, spelling, rtype="bytes"):
+        Double.__init__(self, raw, seekable, readinto, has_seekable)
+        self._sp = spelling
+        self._rt = PY_READS[rtype]
+
+    def read(self, n=-1):
+        self.log.append("r%d" % (-1 if n is None else n))
+        return self._rt(self._b.read(n))
+
+    def _readinto(self, b):
+        self.log.append("i%d" % len(b))
+        sp = self._sp
+        if sp == "mvcast":
+            m = memoryview(b).cast("B")
+            data = self._b.read(len(m))
+            m[:len(data)] = data
+            return len(data)
+        if sp == "pieces":
+            p = 0
+            while p < len(b):
+                piece = self._b.read(min(4096, len(b) - p))
+                if not piece:
+                    break
+                b[p:p + len(piece)] = piece
+                p += len(piece)
+            return p
+        data = self._b.read(len(b))
+        n = len(data)
+        if sp == "slice":
+            b[:n] = data
+        elif sp == "whole":
+            if n == len(b):
+                b[:] = data
+            else:
+                b[:n] = data
+        elif sp == "mv":
+            memoryview(b)[:n] = data
+        elif sp == "index":
+            for i, x in enumerate(data):
+                b[i] = x
+        elif sp == "frombuf":
+            b[:n] = bytearray(data)
+        else:
+            raise ValueError(sp)
+        return n
+
+
+def py_kind(spelling, rtype, base):
+    return f"py/{spelling}/{rtype}/{base}"
+
+
+def is_py(kind):
+    if kind.startswith("alt/"):
+        kind = kind.split("/", 2)[2]
+    return kind.startswith("py/")
+
+
+def py_text(kind):
+    """what the source is, for the kind of a failing input"""
+    k = kind[kind.index("py/"):].split("/")
+    if base_kind(kind) in PY_BASES:
+        t = f" whose readinto is written in Python ({PY_SPELLINGS[k[1]]})"
+    else:
+        t = " written in Python"
+    return t + ("" if k[2] == "bytes" else f", read() returns a {k[2]}")
 
 
 # the stable prefix of the kind of every failing input whose source returns short counts (one open finding of /repo: the library
@@ -435,6 +527,12 @@ def make_source(kind, raw, path):
         for lab, sk, ri, hs in DOUBLES:
             if lab == base:
                 d = ShortDouble(raw, sk, ri, hs, policy, int(seed))
+                return d, d, None
+    if kind.startswith("py/"):
+        _, spelling, rtype, base = kind.split("/")
+        for lab, sk, ri, hs in DOUBLES:
+            if lab == base:
+                d = PyDouble(raw, sk, ri, hs, spelling, rtype)
                 return d, d, None
     for lab, sk, ri, hs in DOUBLES:
         if lab == kind:
@@ -1042,6 +1140,42 @@ def alt_configs(ctx, rng, f, ref_keys, on_disk=False):
     return out
 
 
+def py_configs(ctx, rng, f, ref_keys, small=True):
+    """(py kind, read_evlrs, plan) on file f, and the py kinds laspy.read(source) is run on: sources WRITTEN IN PYTHON - readinto in
+    the usual spellings on the doubles that have one (seekable, not seekable, bare), read() returning bytes or a bytearray on every
+    double - reading the whole in one go (no plan) and by chunks / read_points; the (read_evlrs, plan) are those the path was run with"""
+    keys = sorted(ref_keys, key=repr)
+    whole = [k for k in keys if k[1] == "-"] or keys
+    parts = [k for k in keys if k[1] != "-"] or keys
+    spellings = list(PY_SPELLINGS) if small else PY_FAST
+    runs, reads = [], []
+    if ctx.thorough():
+        for base in PY_BASES:
+            for sp in spellings:
+                rt = rng.choice(sorted(PY_READS))
+                for (e, ptok) in (rng.choice(whole), rng.choice(parts)):
+                    runs.append((py_kind(sp, rt, base), e, parse_plan(ptok)))
+                reads.append(py_kind(sp, rt, base))
+        for base in PY_READ_BASES:
+            for rt in sorted(PY_READS):
+                for (e, ptok) in (rng.choice(whole), rng.choice(parts)):
+                    runs.append((py_kind("slice", rt, base), e, parse_plan(ptok)))
+                reads.append(py_kind("slice", rt, base))
+        return runs, reads
+    # quick tier: every file gets two sources with a Python readinto (one read whole, one by parts; the spellings and the three
+    # doubles in turn over the files) and one read()-only source, and laspy.read through one of each
+    sps = rng.sample(spellings, 2)
+    bases = rng.sample(PY_BASES, 2)
+    for sp, base, (e, ptok) in zip(sps, bases, (rng.choice(whole), rng.choice(parts))):
+        runs.append((py_kind(sp, rng.choice(sorted(PY_READS)), base), e, parse_plan(ptok)))
+    e, ptok = rng.choice(keys)
+    runs.append((py_kind("slice", rng.choice(sorted(PY_READS)), rng.choice(PY_READ_BASES)), e, parse_plan(ptok)))
+    reads.append(py_kind(rng.choice(spellings), rng.choice(sorted(PY_READS)), rng.choice(PY_BASES)))
+    if rng.random() < 0.3:
+        reads.append(py_kind("slice", "bytearray", rng.choice(PY_READ_BASES)))
+    return runs, reads
+
+
 BOUNDARIES = sorted({8 << 10, 64 << 10, 1 << 20, 2 * io.DEFAULT_BUFFER_SIZE, 3 * io.DEFAULT_BUFFER_SIZE, 16 * io.DEFAULT_BUFFER_SIZE,
                      128 * io.DEFAULT_BUFFER_SIZE})
 BIG = 8 << 20
@@ -1195,6 +1329,9 @@ def observe_sized(ctx, rng, tmp):
         for kind in REAL + [PIPE] + [d[0] for d in DOUBLES]:
             if ctx.thorough() or rc["part"] != "big" or rng.random() < 0.4:
                 rec["reads"].append((kind, read_through(kind, f["raw"], path, None, [], route="read", enc=enc)))
+        pruns, preads = py_configs(ctx, rng, f, {(e, plan_tok(plan)) for (k, e, plan) in runs if k == "path"}, small=False)
+        rec["py_runs"] = [((kind, e, plan), read_through(kind, f["raw"], path, e, plan, enc=enc)) for (kind, e, plan) in pruns]
+        rec["py_reads"] = [(kind, read_through(kind, f["raw"], path, None, [], route="read", enc=enc)) for kind in preads]
         rec["mmap"] = read_mmap(path, enc=enc)
         rec["head"] = f["raw"][:400]
         del rec["raw"], rec["truth_bytes"]         # several MiB each: the recipe makes them again
@@ -1242,6 +1379,9 @@ def observe(ctx):
             rec["alt_runs"] = []
             for (kind, e, plan) in alt_configs(ctx, srng, rec, ref_keys):
                 rec["alt_runs"].append(((kind, e, plan), read_through(kind, rec["raw"], path, e, plan)))
+            pruns, preads = py_configs(ctx, srng, rec, ref_keys)
+            rec["py_runs"] = [((kind, e, plan), read_through(kind, rec["raw"], path, e, plan)) for (kind, e, plan) in pruns]
+            rec["py_reads"] = [(kind, read_through(kind, rec["raw"], path, None, [], route="read")) for kind in preads]
         obs["sized"] = observe_sized(ctx, srng, tmp)
     finally:
         shutil.rmtree(tmp, ignore_errors=True)
@@ -1658,7 +1798,11 @@ def correspond(ctx):
         "the thorough tier), read in one call and by boundary-crossing chunks through the 13 source kinds, laspy.read and laspy.mmap; and "
         "on every file 2-3 runs (thorough: 20) through short-count sources: the six doubles with read/readinto capped by a policy (1, 7, "
         "227, 4096, 65536 bytes, half, all but one, random, every other call) and a raw pipe / socket fed in random pieces; and 2 (21) runs "
-        "through laspy.LasReader(stream) / laspy.open(source, 'r') / with numpy int64 / intp counts and a numpy bool as read_evlrs. 150 (1500) "
+        "through laspy.LasReader(stream) / laspy.open(source, 'r') / with numpy int64 / intp counts and a numpy bool as read_evlrs; and on every file and every size-boundary data set 3 (thorough: 54) runs "
+        "plus 1-2 (27) laspy.read through sources WRITTEN IN PYTHON: the doubles with a readinto that stores the bytes by b[:n] = data / "
+        "b[:] = data / memoryview(b)[:n] = data / memoryview(b).cast('B')[:n] = data / pieces of 4096 bytes / element by element / "
+        "b[:n] = bytearray(data) and returns n (seekable, not seekable, bare), and the read()-only doubles, read() returning bytes or a "
+        "bytearray; read whole and by chunks / read_points. 150 (1500) "
         "calls and ask-again loops of the short-count doubles are compared with the model's s_read_short / read_exact")
     obs = observe(ctx)
     cmds, meta = [], []
@@ -1871,6 +2015,10 @@ def needs_evlrs(raw):
 
 
 def src_name(kind):
+    if is_py(kind):
+        if base_kind(kind) == "double_bare_readinto":
+            return "a source that offers only read() and readinto," + py_text(kind).replace(" whose readinto is", " readinto")
+        return src_name(base_kind(kind)) + py_text(kind)
     sk, _ = caps_of(kind)
     if not has_close(kind):
         return "a source that offers only read()"
@@ -2047,7 +2195,7 @@ def judge_file(ctx, f, add, add_short):
         if d:
             add(f"by path, {'a malformed' if not full else 'a ' + f['cls']} file: read_evlrs={'not given' if e is None else e} changes what read_evlrs=True gives ({d.split(':')[0].split(' ')[0]})",
                 file_input(f, kind="path", read_evlrs=e, plan=ptok, timing=True), d)
-    for short, runs in ((False, f["runs"]), (True, f.get("short_runs", [])), (False, f.get("alt_runs", []))):
+    for short, runs in ((False, f["runs"]), (True, f.get("short_runs", [])), (False, f.get("alt_runs", [])), (False, f.get("py_runs", []))):
         for (kind, e, plan), got in runs:
             sk, _ = caps_of(kind)
             inp = file_input(f, kind=kind, read_evlrs=e, plan=plan_tok(plan))
@@ -2057,9 +2205,16 @@ def judge_file(ctx, f, add, add_short):
                 # every failure of another entry point / of numpy arguments has a kind that starts with what it is
                 def put(k, i, w, _t=alt_text(variant)):
                     add_short(_t + ": " + k, i, w, bucket="alt")
-            if short or sized or variant:
+            if is_py(kind):
+                # a source written in Python: the kind of every failure says so (src_name); they come after the others
+                def put(k, i, w, _t=py_text(kind)):
+                    add_short(k if "Python" in k else k + " [a source" + _t + "]", i, w, bucket="py")
+                ctx.count("python source: " + (PY_SPELLINGS[kind.split("/")[1]] if base_kind(kind) in PY_BASES else "read() only")
+                          + ", read() returns " + kind.split("/")[2])
+                ctx.count("python source: " + ("whole" if not plan else "by parts"))
+            if short or sized or variant or is_py(kind):
                 # these runs are not compared with the model: they are counted here
-                ctx.count("kind:" + ("short counts/" + base_kind(kind) if short else kind) + (" (size boundary)" if sized else ""))
+                ctx.count("kind:" + ("short counts/" + base_kind(kind) if short else kind if not is_py(kind) else "python/" + base_kind(kind)) + (" (size boundary)" if sized else ""))
                 if short:
                     ctx.count("short counts: " + kind.split("/")[1] + (": no call came back short" if got.get("short_calls") == 0 else ""))
                 ctx.case((f["label"], kind, e, plan_tok(plan)), nontrivial=(f["n"] > 0 or f["nev"] > 0))
@@ -2088,8 +2243,10 @@ def judge_file(ctx, f, add, add_short):
                 if extra:
                     put("a source that offers only read() was asked for something else", inp, f"attributes {extra}; outcome {got.get('err', 'ok')} {got.get('msg', '')}")
     if full:
-        for kind, got in f["reads"]:
-            if sized:
+        for kind, got in f["reads"] + f.get("py_reads", []):
+            if is_py(kind):
+                ctx.count("python source: laspy.read")
+            if sized or is_py(kind):
                 ctx.count("route:laspy.read (size boundary)")
                 ctx.case((f["label"], kind, "laspy.read"), nontrivial=True)
             d = same_read(ref, got)
@@ -2118,7 +2275,7 @@ def judge_file(ctx, f, add, add_short):
 def search(ctx, seeds):
     obs = observe(ctx)
     failing, seen = [], set()
-    later = {"alt": [], "short": []}
+    later = {"alt": [], "short": [], "py": []}
 
     def add(kind, inp, why):
         if kind not in seen and len(failing) < 8:
@@ -2144,7 +2301,7 @@ def search(ctx, seeds):
                "file_hex": ed["raw_before"].hex()}
         for (k, why) in judge_edit(ed):
             add(k, inp, why)
-    return failing + later["alt"] + later["short"]
+    return failing + later["py"] + later["alt"] + later["short"]
 
 
 def replay_edit(inp):
